@@ -925,4 +925,51 @@ theorem agree_all (hfns : trFns (fnsS.map (·.name)) fnsS = some fnsT) : ∀ n, 
 
 end sim
 
+/-- **One call of `main`**: if `Spec.run` yields the value `v`, then for every sufficiently large
+    fuel `TraceSpec.run` on the resolved program and the same arguments yields the same value. -/
+theorem run_agree [FloatOps] (fnsS : List Spec.FnDef) (fnsT : List TraceSpec.FnDef) (hres : resolve fnsS = some fnsT)
+    (fuel : Nat) (args : List Spec.Val) (args' : List TraceSpec.Val) (henc : encArgs args = some args')
+    (v : Spec.Val) (h : Spec.run fnsS fuel args = .ok v) :
+    ∃ v', encVal v = some v' ∧ ∃ M, ∀ m, M ≤ m → (TraceSpec.run fnsT m args').result = .ok v' := by
+  simp only [resolve] at hres
+  split at hres
+  case isFalse => cases hres
+  rename_i hmain
+  simp only [mainLast, Bool.and_eq_true, decide_eq_true_eq, beq_iff_eq, List.length_map, ne_eq] at hmain
+  obtain ⟨hne, hidx⟩ := hmain
+  obtain ⟨fd, hfind, hget⟩ := fnIndex_find fnsS "main" _ hidx
+  obtain ⟨fd', htrfn, hget'⟩ := trFns_get _ fnsS fnsT _ fd hres hget
+  have hlen := trFns_length _ fnsS fnsT hres
+  have hlast : fnsT.getLast? = some fd' := by
+    rw [List.getLast?_eq_getElem?, hlen]; exact hget'
+  simp only [trFn] at htrfn
+  split at htrfn
+  case isFalse => cases htrfn
+  obtain ⟨b', hb', rfl⟩ := Option.map_eq_some_iff.mp htrfn
+  simp only [Spec.run, hfind] at h
+  split at h
+  case h_2 => cases h
+  case h_3 => cases h
+  rename_i cenv hbp
+  obtain ⟨cenvT, hbT, hrc, hmc⟩ := bindParams_rel fd.params args args' [] cenv [] hbp henc .nil
+  simp only [List.length_nil, ← List.range_eq_range', List.map_nil, List.append_nil] at hbT hmc
+  have hb'' : trB (fnsS.map (·.name)) (cenv.map Prod.fst) fd.body = some b' := by rw [hmc]; exact hb'
+  have hB := (agree_all fnsS fnsT hres fuel fuel (Nat.le_refl fuel)).2.2.1 fd.body b' cenv cenvT hb'' hrc
+  split at h
+  · rename_i ce w hev
+    split at h
+    · cases h
+      obtain ⟨⟨ceT, v'⟩, ⟨_, hv', _⟩, M, hM⟩ := hB.1 _ hev
+      exact ⟨v', hv', M, fun m hm => by simp only [TraceSpec.run, hlast, hbT, hM m hm]⟩
+    · cases h
+  · rename_i w hev
+    split at h
+    · cases h
+      obtain ⟨v', hv', M, hM⟩ := hB.2 _ hev
+      exact ⟨v', hv', M, fun m hm => by simp only [TraceSpec.run, hlast, hbT, hM m hm]⟩
+    · cases h
+  · cases h
+  · cases h
+  · cases h
+
 end RotoV.C01Agree
